@@ -2205,6 +2205,12 @@ class FuncVerifier(object):
         if meth == 'copy':
             av = self.deref(recv, st)
             return st.alloc(AV(av.term, av.shape, av.elem))
+        if meth == 'astype' and len(n.args) == 1 and not n.keywords and ast.unparse(n.args[0]) in ('int', 'numpy.int_', 'np.int_', 'numpy.int64'):
+            # a.astype(int): a fresh copy; exact for integer arrays (and for the all-zero / all-one float arrays numpy.zeros / ones give,
+            # which this engine already represents with integer entries)
+            av = self.deref(recv, st)
+            if av.elem in ('int', 'bool'):
+                return st.alloc(AV(av.term, av.shape, 'int'))
         raise OutOfFragment('array method .%s' % meth, n)
 
     def all_cmp(self, cmp_, st, node):
